@@ -226,7 +226,7 @@ impl EventLoop {
                 &mut self.pending,
                 &self.requests_rx,
                 self.options.pending_throttle
-            ), if !collision && (!self.pending.is_empty() || !inflight_full) => match o {
+            ), if !collision && !inflight_full => match o {
                 Ok(request) => {
                     if let Some(outgoing) = self.state.handle_outgoing_packet(request)? {
                         network.write(outgoing).await?;
